@@ -1,11 +1,14 @@
 #!/bin/bash
 # usage: tools/run_seed.sh <seed-id> <property> [tier]
 # applies seeded/<id>/patch.diff to /repo, runs the property's check, reverts /repo.
+# The evidence file of the property is put back afterwards: evidence/ only ever holds runs on the unchanged tree.
 ID=$1; P=$2; TIER=${3:-quick}
 cd /verif
 git -C /repo status --short | grep -q . && { echo "/repo not clean"; exit 2; }
 git -C /repo apply /verif/seeded/$ID/patch.diff || exit 2
+cp evidence/$P.json /tmp/.evidence_$P.keep 2>/dev/null
 VERIF_SEED=${VERIF_SEED:-0} ./check.py $P --tier $TIER 2>&1 | tail -3
 rc=${PIPESTATUS[0]}
 git -C /repo checkout -- . 
+[ -f /tmp/.evidence_$P.keep ] && mv /tmp/.evidence_$P.keep evidence/$P.json
 exit $rc
